@@ -108,71 +108,104 @@ def fallback(tree):
 
 
 # ---------------------------------------------------------------- _forward_open / _forward_close
+# module-level constants of pycomm3.const (imported names, not locals)
 FIELDS = {"PRIORITY": "FPriority", "TIMEOUT_TICKS": "FTimeoutTicks", "TIMEOUT_MULTIPLIER": "FTimeoutMultiplier",
-          "TRANSPORT_CLASS": "FTransportClass", "net_params": "FNetParams"}
+          "TRANSPORT_CLASS": "FTransportClass"}
 CFG_FIELDS = {"cid": "FCid", "csn": "FCsn", "vid": "FVid", "vsn": "FVsn"}
 
 
-def msg_template(fn, var):
-    lists = [n.value for n in ast.walk(fn) if isinstance(n, ast.Assign) and len(n.targets) == 1
-             and isinstance(n.targets[0], ast.Name) and n.targets[0].id == var and isinstance(n.value, ast.List)]
-    if len(lists) != 1:
-        raise GenError(f"{fn.name}: expected one `{var} = [...]`, found {len(lists)}")
-    out = []
-    for e in lists[0].elts:
-        if isinstance(e, ast.Constant) and isinstance(e.value, bytes):
-            out.append(("lit", e.value))
-        elif isinstance(e, ast.Name) and e.id in FIELDS:
-            out.append(("field", FIELDS[e.id]))
-        elif _is_cfg_sub(e) in CFG_FIELDS:
-            out.append(("field", CFG_FIELDS[_is_cfg_sub(e)]))
-        else:
-            raise GenError(f"{fn.name}: unrecognised element of {var}: {ast.dump(e)[:80]}")
-    return out
+def local_assignments(fn, name):
+    """the values assigned to the local variable `name` anywhere in `fn` (plain `name = value` statements)"""
+    return [n.value for n in ast.walk(fn) if isinstance(n, ast.Assign) and len(n.targets) == 1
+            and isinstance(n.targets[0], ast.Name) and n.targets[0].id == name]
+
+
+def resolve(fn, node):
+    """a local variable that is assigned exactly once in `fn` stands for the assigned expression (locals are
+    recognised by what they hold, never by their names)"""
+    seen = set()
+    while isinstance(node, ast.Name) and node.id not in seen:
+        seen.add(node.id)
+        vals = local_assignments(fn, node.id)
+        if len(vals) != 1:
+            break
+        node = vals[0]
+    return node
 
 
 def _is_conn_size(n):
     return (isinstance(n, ast.Attribute) and n.attr == "connection_size" and isinstance(n.value, ast.Name) and n.value.id == "self")
 
 
-def net_params(fn):
-    """init_net_params = C;  if ext: net_params = UDINT.encode((self.connection_size & M1) | init_net_params << SH)
-                              else:   net_params = UINT.encode((self.connection_size & M2) | init_net_params)"""
-    inits = [n.value for n in ast.walk(fn) if isinstance(n, ast.Assign) and len(n.targets) == 1
-             and isinstance(n.targets[0], ast.Name) and n.targets[0].id == "init_net_params"]
-    if len(inits) != 1:
-        raise GenError("_forward_open: init_net_params")
-    init = _const(inits[0], int, "_forward_open: init_net_params")
-    ifs = [n for n in fn.body if isinstance(n, ast.If) and _is_cfg_sub(n.test, "extended forward open")
+def net_params_shape(fn, name):
+    """`name` is the local holding the network connection parameters when it is assigned exactly by
+         if self._cfg["extended forward open"]: name = UDINT.encode((self.connection_size & M1) | <init> << SH)
+         else:                                  name = UINT.encode((self.connection_size & M2) | <init>)
+       with <init> an integer constant (directly or through a local assigned once) -> (init, M1, SH, M2) or None"""
+    ifs = [n for n in ast.walk(fn) if isinstance(n, ast.If) and _is_cfg_sub(n.test, "extended forward open")
            and len(n.body) == 1 and len(n.orelse) == 1
-           and all(isinstance(s, ast.Assign) and isinstance(s.targets[0], ast.Name) and s.targets[0].id == "net_params"
-                   for s in (n.body[0], n.orelse[0]))]
-    if len(ifs) != 1:
-        raise GenError("_forward_open: the `if self._cfg['extended forward open']: net_params = ... else: ...` statement")
+           and all(isinstance(s, ast.Assign) and len(s.targets) == 1 and isinstance(s.targets[0], ast.Name)
+                   and s.targets[0].id == name for s in (n.body[0], n.orelse[0]))]
+    if len(ifs) != 1 or len(local_assignments(fn, name)) != 2:
+        return None
 
     def enc(call, typ):
         if not (isinstance(call, ast.Call) and isinstance(call.func, ast.Attribute) and call.func.attr == "encode"
                 and isinstance(call.func.value, ast.Name) and call.func.value.id == typ and len(call.args) == 1):
-            raise GenError(f"_forward_open: net_params is not {typ}.encode(...)")
+            raise GenError(f"{fn.name}: the network parameters are not {typ}.encode(...)")
         return call.args[0]
 
     def masked(n):
         if not (isinstance(n, ast.BinOp) and isinstance(n.op, ast.BitAnd) and _is_conn_size(n.left)):
-            raise GenError("_forward_open: net_params: `self.connection_size & mask`")
-        return _const(n.right, int, "_forward_open: size mask")
+            raise GenError(f"{fn.name}: network parameters: `self.connection_size & mask`")
+        return _const(n.right, int, f"{fn.name}: size mask")
+
+    def init_of(n):
+        return _const(resolve(fn, n), int, f"{fn.name}: initial network parameters")
 
     big = enc(ifs[0].body[0].value, "UDINT")
     if not (isinstance(big, ast.BinOp) and isinstance(big.op, ast.BitOr) and isinstance(big.right, ast.BinOp)
-            and isinstance(big.right.op, ast.LShift) and isinstance(big.right.left, ast.Name)
-            and big.right.left.id == "init_net_params"):
-        raise GenError("_forward_open: extended net_params shape")
-    m1, sh = masked(big.left), _const(big.right.right, int, "_forward_open: shift")
+            and isinstance(big.right.op, ast.LShift)):
+        raise GenError(f"{fn.name}: extended network parameters shape")
+    m1, sh, init1 = masked(big.left), _const(big.right.right, int, f"{fn.name}: shift"), init_of(big.right.left)
     small = enc(ifs[0].orelse[0].value, "UINT")
-    if not (isinstance(small, ast.BinOp) and isinstance(small.op, ast.BitOr) and isinstance(small.right, ast.Name)
-            and small.right.id == "init_net_params"):
-        raise GenError("_forward_open: standard net_params shape")
-    m2 = masked(small.left)
-    return init, m1, sh, m2
+    if not (isinstance(small, ast.BinOp) and isinstance(small.op, ast.BitOr)):
+        raise GenError(f"{fn.name}: standard network parameters shape")
+    m2, init2 = masked(small.left), init_of(small.right)
+    if init1 != init2:
+        raise GenError(f"{fn.name}: the two network parameter expressions use different initial values")
+    return init1, m1, sh, m2
+
+
+def msg_template(fn, kw, where):
+    """the field list of the request data: generic_message(request_data=b"".join(<list>)), the list given
+    directly or through a local assigned once.  Elements: bytes literals, the module constants PRIORITY /
+    TIMEOUT_TICKS / TIMEOUT_MULTIPLIER / TRANSPORT_CLASS, self._cfg[...] entries, and the local that holds the
+    network connection parameters (recognised by the shape of its assignment).  -> (template, net params or None)"""
+    rd = resolve(fn, kw.get("request_data"))
+    if not (isinstance(rd, ast.Call) and isinstance(rd.func, ast.Attribute) and rd.func.attr == "join"
+            and isinstance(rd.func.value, ast.Constant) and rd.func.value.value == b"" and len(rd.args) == 1):
+        raise GenError(f"{where}: request_data is not b\"\".join(<field list>)")
+    lst = resolve(fn, rd.args[0])
+    if not isinstance(lst, ast.List):
+        raise GenError(f"{where}: the request data field list is not a list literal")
+    out, nps = [], None
+    for e in lst.elts:
+        if isinstance(e, ast.Constant) and isinstance(e.value, bytes):
+            out.append(("lit", e.value))
+        elif isinstance(e, ast.Name) and e.id in FIELDS:
+            out.append(("field", FIELDS[e.id]))
+        elif _is_cfg_sub(e) in CFG_FIELDS:
+            out.append(("field", CFG_FIELDS[_is_cfg_sub(e)]))
+        elif isinstance(e, ast.Name) and net_params_shape(fn, e.id) is not None:
+            shape = net_params_shape(fn, e.id)
+            if nps is not None and nps != shape:
+                raise GenError(f"{where}: two different network parameter locals")
+            nps = shape
+            out.append(("field", "FNetParams"))
+        else:
+            raise GenError(f"{where}: unrecognised element of the request data field list: {ast.dump(e)[:80]}")
+    return out, nps
 
 
 def gm_call(fn, where):
@@ -282,29 +315,34 @@ def gen_lifecycle():
     # ---- _forward_open / _forward_close
     fo = _func(t_drv, "_forward_open", "CIPDriver")
     fc = _func(t_drv, "_forward_close", "CIPDriver")
-    fo_tmpl = msg_template(fo, "forward_open_msg")
-    fc_tmpl = msg_template(fc, "forward_close_msg")
-    init_np, m1, sh, m2 = net_params(fo)
     fo_kw, fc_kw = gm_call(fo, "_forward_open"), gm_call(fc, "_forward_close")
-    for kw, where in ((fo_kw, "_forward_open"), (fc_kw, "_forward_close")):
-        if _attr_chain(kw.get("class_code")) != "ClassCode.connection_manager":
+    fo_tmpl, fo_np = msg_template(fo, fo_kw, "_forward_open")
+    fc_tmpl, fc_np = msg_template(fc, fc_kw, "_forward_close")
+    if fo_np is None or fc_np is not None:
+        raise GenError("_forward_open / _forward_close: network connection parameters (expected in the Forward Open only)")
+    init_np, m1, sh, m2 = fo_np
+    for fn_, kw, where in ((fo, fo_kw, "_forward_open"), (fc, fc_kw, "_forward_close")):
+        if _attr_chain(resolve(fn_, kw.get("class_code"))) != "ClassCode.connection_manager":
             raise GenError(f"{where}: class_code is not ClassCode.connection_manager")
-        if _attr_chain(kw.get("instance")) != "ConnectionManagerInstances.open_request":
+        if _attr_chain(resolve(fn_, kw.get("instance"))) != "ConnectionManagerInstances.open_request":
             raise GenError(f"{where}: instance is not ConnectionManagerInstances.open_request")
-        if not (isinstance(kw.get("connected"), ast.Constant) and kw["connected"].value is False):
+        con = resolve(fn_, kw.get("connected"))
+        if not (isinstance(con, ast.Constant) and con.value is False):
             raise GenError(f"{where}: not sent unconnected")
         if "unconnected_send" in kw:
             raise GenError(f"{where}: unconnected_send given")
-    if _attr_chain(fc_kw.get("service")) != "ConnectionManagerServices.forward_close":
+    if _attr_chain(resolve(fc, fc_kw.get("service"))) != "ConnectionManagerServices.forward_close":
         raise GenError("_forward_close: service")
+    # _forward_open: service = forward_open if not extended else large_forward_open (also checked at run time below)
+    svc = resolve(fo, fo_kw.get("service"))
+    if not (isinstance(svc, ast.IfExp) and {_attr_chain(svc.body), _attr_chain(svc.orelse)}
+            == {"ConnectionManagerServices.forward_open", "ConnectionManagerServices.large_forward_open"}):
+        raise GenError("_forward_open: service is not a choice between forward_open and large_forward_open")
     # the route paths: PADDED_EPATH.encode(self._cfg["cip_path"] + MSG_ROUTER_PATH, length=True[, pad_length=True])
 
     def route_call(fn, where):
-        calls = [n.value for n in ast.walk(fn) if isinstance(n, ast.Assign) and len(n.targets) == 1
-                 and isinstance(n.targets[0], ast.Name) and n.targets[0].id == "route_path"]
-        if len(calls) != 1:
-            raise GenError(f"{where}: route_path")
-        c = calls[0]
+        kw = fo_kw if fn is fo else fc_kw
+        c = resolve(fn, kw.get("route_path"))       # the route_path argument, directly or through a local
         if not (isinstance(c, ast.Call) and _attr_chain(c.func) == "PADDED_EPATH.encode" and len(c.args) == 1
                 and isinstance(c.args[0], ast.BinOp) and isinstance(c.args[0].op, ast.Add)
                 and _is_cfg_sub(c.args[0].left, "cip_path") and isinstance(c.args[0].right, ast.Name)
